@@ -188,9 +188,14 @@ ResolveAction(sub, dec) ==
     [] a = "local_then_remote" -> OK(dec.local_diff \o dec.remote_diff)
     [] a = "remote_then_local" -> OK(dec.remote_diff \o dec.local_diff)
     [] a = "clear" ->
-         LET sk == SingleKey(dec) it == ItemAt(sub, sk.kt, sk.key) IN
+         LET sk == SingleKey(dec) it == ItemAt(sub, sk.kt, sk.key)
+             both == dec.local_diff \o dec.remote_diff IN
          IF sk.ok /\ it.ok /\ sub.t = "o"
          THEN OK(<< [op |-> "replace", kt |-> "s", key |-> sk.key, value |-> Cleared(it.v)] >>)
+         \* both sides ADD the key with different values (a markdown cell converted to a code cell on both sides, with
+         \* different execution counts): the cleared value is added
+         ELSE IF sk.ok /\ sub.t = "o" /\ sk.kt = "s" /\ sk.key \notin DOMAIN sub.m /\ "value" \in DOMAIN both[1]
+              THEN OK(<< [op |-> "add", kt |-> "s", key |-> sk.key, value |-> Cleared(both[1].value)] >>)
          ELSE BAD
     [] a = "remove" ->
          LET sk == SingleKey(dec) IN
